@@ -1071,6 +1071,18 @@ def parse_mmio(repo, methods, icu):
         entries.append({"origin": "mmio", "name": "cells[%s] slot{%s,%s}.%s" % (cell, sm.group(1), sm.group(2), "set" if setter else "get"),
                         "obj": obj, "method": cls + "." + meth})
         spans.append((m.start(), m.end()))
+    # std::bind slots: BitFieldSlot{pos, len, std::bind(&C::Set, &obj, ...), std::bind(&C::Get, &obj, ...)}
+    for m in re.finditer(r"BitFieldSlot\{(\d+), ?(\d+), ?std::bind\(&(\w+)::(\w+), ?&(\w+)((?:, ?\w+)*)\), ?"
+                         r"std::bind\(&(\w+)::(\w+), ?&(\w+)((?:, ?\w+)*)\)\}", src):
+        pos, ln, c1, m1, o1, _a1, c2, m2, o2, _a2 = m.groups()
+        if o1 not in names and o2 not in names:
+            continue
+        for acc, cls, meth, obj in (("set", c1, m1, o1), ("get", c2, m2, o2)):
+            if obj not in names or cls_of[obj] != cls or meth not in methods[cls]:
+                fail("%s: slot{%s,%s}.%s binds unknown %s::%s on %s" % (what, pos, ln, acc, cls, meth, obj))
+            entries.append({"origin": "mmio", "name": "cells[%s] slot{%s,%s}.%s" % (enclosing_cell(m.start()), pos, ln, acc),
+                            "obj": obj, "method": cls + "." + meth})
+        spans.append((m.start(), m.end()))
     # direct references
     for m in re.finditer(r"BitFieldSlot::RefSlot\((\d+), ?(\d+), ?(\w+)\.(\w+)\[i\]\)", src):
         pos, ln, obj, f = m.groups()
